@@ -72,7 +72,7 @@ func (c04) Gen(tier string, seed int64, emit func([]Ev)) {
 	// end to end: the same values set on an adaptation field (PCR, OPCR, both) and carried in a PES header (the
 	// library's own WithPES option; a PES header with PTS and DTS read by the header decoder with DTS asked first
 	// or PTS asked first)
-	e2e := 60
+	e2e := 150
 	if tier == "thorough" {
 		e2e = 4000
 	}
@@ -111,7 +111,7 @@ func (c04) Gen(tier string, seed int64, emit func([]Ev)) {
 		// what the slot holds before the value is set: filler, random bytes, or another encoding of the same value
 		// (reserved bits cleared) as a re-stamped packet may carry
 		emit([]Ev{{"op": "e2e_pcr", "v": W64(v), "w": W64(w), "which": []string{"pcr", "opcr", "both", "both-opcr-first"}[i%4], "aflen": aflen,
-			"extra": extra, "prior": []string{"ff", "random", "alias"}[r.Intn(3)], "fill": B(rndBytes(r, 12))}})
+			"extra": extra, "prior": []string{"ff", "random", "alias", "onebyte", "onebyte"}[r.Intn(5)], "fill": B(rndBytes(r, 12))}})
 	}
 	// decoding arbitrary bytes, and the same bytes with one reserved / marker / prefix bit flipped
 	for i := 0; i < nrand/2+40; i++ {
@@ -227,6 +227,11 @@ func (c04) Exec(h []Ev) []Ev {
 					case "alias":
 						gotsInsertPCR(p[off:off+6], val)
 						p[off+4] &^= 0x7e
+					case "onebyte":
+						// the canonical encoding of the value with exactly one of its six bytes different (for the first byte that
+						// is a value 2^25 * 300 * k away): the whole field must be written
+						gotsInsertPCR(p[off:off+6], val)
+						p[off+int(fill[k])%6] ^= 1 + fill[k+1]%255
 					}
 				}
 				pcrOff, opcrOff := 6, 6
